@@ -29,18 +29,13 @@ for d in dirs:
     extra = list(meta.get("also_check", []))
     if isinstance(prop, (list, tuple)):
         prop, extra = prop[0], list(prop[1:]) + extra
+    try:
+        extra += [x for x in json.load(open("/verif/seeded/also_check.json")).get(name, []) if x != prop and x not in extra]
+    except Exception:
+        pass
     rec["property"] = prop
     subprocess.run(["git", "-C", wt, "reset", "-q", "--hard", "HEAD"]); subprocess.run(["git", "-C", wt, "clean", "-fdq"])
     p = subprocess.run(["git", "-C", wt, "apply", d + "/patch.diff"], capture_output=True, text=True)
-    if p.returncode != 0:
-        # the tree moved on since the patch was written: try with fuzz
-        subprocess.run(["git", "-C", wt, "reset", "-q", "--hard", "HEAD"]); subprocess.run(["git", "-C", wt, "clean", "-fdq"])
-        p2 = subprocess.run(["patch", "-p1", "-F3", "--no-backup-if-mismatch", "-i", d + "/patch.diff"], cwd=wt, capture_output=True, text=True)
-        if p2.returncode == 0:
-            p = p2
-            rec["applied_with_fuzz"] = True
-        else:
-            subprocess.run(["git", "-C", wt, "reset", "-q", "--hard", "HEAD"]); subprocess.run(["git", "-C", wt, "clean", "-fdq"])
     if p.returncode != 0:
         rec["applies"] = False
         rec["apply_err"] = p.stderr[-400:]
